@@ -294,6 +294,14 @@ class BuiltinMixin:
         keys = [self.eval(k, st) for k in e.keys]
         vals = [self.eval(v, st) for v in e.values]
         want = st.ghost.get("__dict_vty__")
+        if st.spec:
+            # a dict literal inside a specification is a value (no allocation in the heap)
+            vty = want or (self.join_types([v.ty for v in vals]) if vals else JV)
+            os_ = opt_sort(sort_of(vty))
+            m = self.empty_map(vty)
+            for k, v in zip(keys, vals):
+                m = z3.Store(m, self.as_key(k), os_.some(self.to_dict_val(v, vty, st)))
+            return Val(DictT(vty), z3.IntVal(0), frozen=m)
         if not vals:
             return self.new_dict(want or JV, st)
         vty = want or self.join_types([v.ty for v in vals])
@@ -591,6 +599,34 @@ class BuiltinMixin:
             return Val(FLOAT, z3.ToReal(v.t), exact_int=v.t)
         raise Unsupported(f"float({v.ty})")
 
+    # -- ghost maps (specification only) ---------------------------------------------------------
+    def x_bi_mnew(self, args, kw, st, node):
+        return Val(Ty("IntMap"), z3.K(I, z3.IntVal(-1)))
+
+    def x_bi_mnew2(self, args, kw, st, node):
+        return Val(Ty("IntMap2"), fresh("gmap2", z3.ArraySort(I, I, I)))
+
+    def x_bi_mset(self, args, kw, st, node):
+        m, i, v = args
+        return Val(Ty("IntMap"), z3.Store(m.t, i.t, v.t))
+
+    def x_bi_mset2(self, args, kw, st, node):
+        m, a, b, v = args
+        return Val(Ty("IntMap2"), z3.Store(m.t, a.t, b.t, v.t))
+
+    def x_bi_sort_inv(self, args, kw, st, node):
+        """Ghost: new position of old element i under the most recent sort of this list (pinv)."""
+        key = "g:sortinv:" + args[0].t.sexpr()
+        if key not in st.ghost:
+            raise Unsupported("sort_inv of a list that was not sorted")
+        return st.ghost[key][1]
+
+    def x_bi_sort_perm(self, args, kw, st, node):
+        key = "g:sortinv:" + args[0].t.sexpr()
+        if key not in st.ghost:
+            raise Unsupported("sort_perm of a list that was not sorted")
+        return st.ghost[key][0]
+
     # -- datetime ------------------------------------------------------------------------------
     def x_datetime_timedelta(self, args, kw, st, node):
         total = z3.IntVal(0)
@@ -819,6 +855,11 @@ class BuiltinMixin:
                                                    z3.And(le, z3.Implies(eq, perm(a) < perm(b))))))
         out.x["perm"] = perm
         out.x["pinv"] = pinv
+        a2 = z3.Int("j!pm")
+        st.ghost = dict(st.ghost)
+        maps = (Val(Ty("IntMap"), self.def_array(st, a2, perm(a2))), Val(Ty("IntMap"), self.def_array(st, a2, pinv(a2))))
+        st.ghost["g:sortinv:" + out.t.sexpr()] = maps
+        st.ghost["g:sortinv:" + lst.t.sexpr()] = maps
         return out
 
     # ==========================================================================================
